@@ -334,6 +334,7 @@ void Engine::run_bus_events(const J &ev) {
 			nd.present = (k == "new");
 			if (k == "new") nd.tx_seq = 1;
 			pa.tab_version = (uint8_t) (pa.tab_version == 255 ? 1 : pa.tab_version + 1);
+			if (pa.enum_active) pa.enum_dirty = true;
 			std::vector<uint8_t> d{pa.tab_version, nd.addr.back()};
 			d.insert(d.end(), nd.uid, nd.uid + 7);
 			std::vector<bus::Fault> fs;
@@ -424,7 +425,12 @@ void Engine::run() {
 		if (se.getb("fresh", false)) sim::lib_state_restore();   // reference session: library statics as in a fresh process
 		session_wire_begin.push_back(bus.wire.size());
 		if (!se.getb("no_start", false)) {
+			// bus events that happen while the start-up dialogue is running (node table changes, spontaneous traffic)
+			int sb = -1;
+			const J &sev = se["start_bus"];
+			if (sev.size() > 0) sb = sim::spawn([this, &sev]() { run_bus_events(sev); }, "startbus");
 			r = do_start(se["start"]);
+			if (sb >= 0) sim::join(sb);
 			if (se["start"].has("expect") && r != (int) se["start"].geti("expect"))
 				violate("START_RETURN", se["start"].gets("mode"), "start returned " + std::to_string(r) + ", the plan expects " + std::to_string(se["start"].geti("expect")) + " (valid generated configuration, responsive interface)");
 			if (prop) prop->on_session_start(*this, (int) s, r);
